@@ -395,6 +395,8 @@ func runC02(env *Env) {
 	// (two tokens in one sub-process at overlapping times: the activations' monitors must not see each other's end)
 	twoTokensOneSubProcess(env, rep, "C02-early-completion", 8)
 	c02SharedTracer(env, rep, 4)
+	sitems := c02PartialStarts(env, rep)
+	env.WriteCases(rep, "_starts", "Corr.C02corr", "nat * list (nat * nat) * nat", sitems, "c02_start_mismatches")
 	env.WriteCases(rep, "", "Corr.C02corr", "nat * list nat * nat * nat", items, "c02_mismatches")
 	env.WriteReport(rep)
 }
@@ -515,4 +517,112 @@ func c02SharedTracer(env *Env, rep *Report, rounds int) {
 		}
 		cancel()
 	}
+}
+
+// c02PartialStarts: processes with 2..3 start events, each leading straight to an end event, into a sub-process or
+// into a sub-process that contains another one; the start events are started one at a time with StartWith (some of
+// them twice, some never). After every start the driver waits until nothing moves any more and asks: complete is
+// reported if and only if every start event of the process has fired by then -- the inner start events of the
+// sub-processes, whose traces pass through the same stream, and repeated starts do not count. Every answer is also
+// replayed against the model of the monitor's first phase (Model/StartCount.v).
+func c02PartialStarts(env *Env, rep *Report) (items []string) {
+	type sc struct {
+		shapes []int // per start event: 0 = end event, 1 = sub-process, 2 = sub-process in a sub-process
+		starts []int
+	}
+	scs := []sc{
+		{[]int{1, 0}, []int{0, 1}}, {[]int{1, 0}, []int{0, 0, 1}}, {[]int{0, 1}, []int{0, 0, 1}}, {[]int{2, 0}, []int{0, 1}},
+		{[]int{1, 1}, []int{1, 1, 0}}, {[]int{0, 0}, []int{1, 1, 0}}, {[]int{2, 1, 0}, []int{0, 1, 2}}, {[]int{1, 2, 0}, []int{1, 0, 0, 2}},
+		{[]int{0, 0, 2}, []int{2, 2, 1, 0}}, {[]int{1, 0, 1}, []int{2, 0, 1}},
+	}
+	for si, c := range scs {
+		if rep.Saturated() {
+			break
+		}
+		k := len(c.shapes)
+		p := &Prog{}
+		for i, sh := range c.shapes {
+			a := fmt.Sprintf("A%d", i)
+			p.Node("start", a)
+			prev := a
+			if sh >= 1 {
+				h := p.Node("sub", fmt.Sprintf("S%d", i))
+				h.Sub = &Prog{nflow: 500 + 50*i}
+				h.Sub.Node("start", fmt.Sprintf("ss%d", i))
+				in := fmt.Sprintf("ss%d", i)
+				if sh == 2 {
+					n := h.Sub.Node("sub", fmt.Sprintf("N%d", i))
+					n.Sub = &Prog{nflow: 800 + 50*i}
+					n.Sub.Node("start", fmt.Sprintf("ns%d", i))
+					n.Sub.Node("end", fmt.Sprintf("ne%d", i))
+					n.Sub.Flow(fmt.Sprintf("ns%d", i), fmt.Sprintf("ne%d", i), "")
+					h.Sub.Flow(in, fmt.Sprintf("N%d", i), "")
+					in = fmt.Sprintf("N%d", i)
+				}
+				h.Sub.Node("end", fmt.Sprintf("se%d", i))
+				h.Sub.Flow(in, fmt.Sprintf("se%d", i), "")
+				p.Flow(prev, fmt.Sprintf("S%d", i), "")
+				prev = fmt.Sprintf("S%d", i)
+			}
+			p.Node("end", fmt.Sprintf("end%d", i))
+			p.Flow(prev, fmt.Sprintf("end%d", i), "")
+		}
+		defs, err := ParseDefs(p.XML(""))
+		must(err)
+		in, err := StartInst(defs, InstOpt{NoStart: true})
+		must(err)
+		started := map[int]bool{}
+		for step, a := range c.starts {
+			cs := fmt.Sprintf("process %d: %d start events (0 = to an end event, 1 = into a sub-process, 2 = into a sub-process in a sub-process: %v), started one at a time: %v", si, k, c.shapes, c.starts[:step+1])
+			env.Current(cs)
+			el, found := defs.FindBy(schema.ExactId(fmt.Sprintf("A%d", a)))
+			if !found {
+				break
+			}
+			must(in.P.StartWith(in.Ctx, el.(schema.FlowNodeInterface)))
+			started[a] = true
+			// until nothing moves any more
+			for quiet, last := 0, -1; quiet < 5; {
+				time.Sleep(8 * time.Millisecond)
+				if n := len(in.Log()); n == last {
+					quiet++
+				} else {
+					quiet, last = 0, n
+				}
+			}
+			all := len(started) == k
+			d := 250 * time.Millisecond
+			if all {
+				d = tmoStep
+			}
+			verdict := c02Wait(in, d)
+			rep.Evaluations++
+			rep.Nontrivial++
+			rep.Count("partial_starts")
+			var tr []string
+			for _, e := range in.Log() {
+				if (e.K == "flow" || e.K == "term") && len(e.N) > 1 {
+					var i int
+					switch {
+					case e.N[0] == 'A':
+						fmt.Sscanf(e.N[1:], "%d", &i)
+						tr = append(tr, fmt.Sprintf("(0,%d)", i))
+					case strings.HasPrefix(e.N, "ss") || strings.HasPrefix(e.N, "ns"):
+						fmt.Sscanf(e.N[2:], "%d", &i)
+						tr = append(tr, fmt.Sprintf("(1,%d)", i))
+					}
+				}
+			}
+			items = append(items, fmt.Sprintf("(%d,[%s],%d)", k, strings.Join(tr, ";"), b2i(verdict)))
+			if verdict != all {
+				rep.Violate(map[bool]string{true: "C02-early-completion", false: "C02-no-completion"}[verdict], cs,
+					fmt.Sprintf("nothing moves any more, %d of %d start events have fired: WaitUntilComplete = %v; log: %s", len(started), k, verdict, logString(in.Log())))
+			}
+			if verdict {
+				break
+			}
+		}
+		in.Close()
+	}
+	return
 }
